@@ -533,10 +533,10 @@ CHECKS = {
                  samples=[dict(s0=66000, tp=6, tc=7), dict(s0=5, tp=5, tc=5), dict(s0=5, tp=8, tc=9)])
             for wl in ('nowal', 'wal') for cl in ('keep', 'clean') for ta in (5, 8) for td in (5, 9, 11)
         ] + [
-            cell('backup_small_%s_%s' % (wl, cl), 'harness.h_backup', 'backup_small_%s_%s' % (wl, cl), (500, 1500),
-                 bounds='as backup_sched_* with pack_size_target = 10 (every packed object opens a new pack file during the backup); pack (clean_loose_per_pack=%s), clean and direct-to-pack instants symbolic in [5,11]; %s' % (cl == 'clean', 'further open connection' if wl == 'wal' else 'no further connection'),
-                 samples=[dict(s0=66000, tp=6, tc=7, td=9), dict(s0=5, tp=5, tc=5, td=11)])
-            for wl in ('nowal', 'wal') for cl in ('keep', 'clean')
+            cell('backup_small_%s_%s_d%d' % (wl, cl, td), 'harness.h_backup', 'backup_small_%s_%s_d%d' % (wl, cl, td), (500, 1500),
+                 bounds='as backup_sched_* with pack_size_target = 10 (every packed object opens a new pack file during the backup); pack (clean_loose_per_pack=%s) and clean instants symbolic in [5,11], direct-to-pack at instant %d; %s' % (cl == 'clean', td, 'further open connection' if wl == 'wal' else 'no further connection'),
+                 samples=[dict(s0=66000, tp=6, tc=7), dict(s0=5, tp=5, tc=5)])
+            for wl in ('nowal', 'wal') for cl in ('keep', 'clean') for td in (9, 11)
         ] + [
             cell('backup_again', 'harness.h_backup', 'backup_again', (900, 1800), thorough_only=True,
                  bounds='two successive backups (the second incremental on the first), events during the first',
